@@ -154,9 +154,9 @@ def showExec (r : ExecRes) (adv : Adv) (valTok : String) (op : Nat) (reqL : List
 def killedTag (r : ExecRes) (adv : Adv) (op : Nat) : List String :=
   (match r.atWork with
    | some w =>
-     (if ((applyAct { w with now := w.now + adv.tick } adv.act).ctx? op).isNone then ["x:killed-in-work"] else []) ++
-     (if (w.ctx? op).isNone then ["x:work-while-unlisted"] else [])
-   | none => []) ++
+     (if ((applyAct { w with now := w.now + adv.tick } adv.act).ctx? op).isNone then ["x:killed-in-work"] else [])
+   -- the G1 → S checkpoint passed and the work function did not run: the operation had been ended on the way
+   | none => if r.log.contains (.cp 1 true) then ["x:ended-before-work"] else []) ++
   (if [0, 1, 2, 3].any (fun i => adv.cpAct i != .none) then ["x:cp-act"] else []) ++
   (if adv.valAct != .none && r.log.any (fun e => e == .validate true || e == .validate false) then ["x:val-act"] else [])
 
